@@ -14,6 +14,41 @@ CLAIMED = {
         "note": "Trusts: the never-collect run as specification; poison+quarantine detecting freed-object reads; address-sensitive programs (detected by an address perturbation self-test) compared on exit class only; enum build only (the NaN-boxed build is exercised under schedules by C14).",
         "technique": "deterministic simulation with fault injection: enumerated + seeded GC schedules on a simulated heap, differential vs never-collect",
     },
+    "C07": {
+        "category": "exploration",
+        "text": "Generated fiber/channel networks (sync and buffered channels, 1-5 fibers launched as functions, lambdas, methods and capturing closures, scripts of send/receive/close/drain/send-after-close; random, fan-in/out, backlog-at-close and ping-pong patterns) run on the real, unperturbed scheduler under seeded GC schedules and address policies. The recorded history (the program's own per-operation records) is judged by a history checker: nothing invented, duplicated, dropped or reordered per (sender, channel); len() never above capacity; a synchronous sender's post-send record never precedes the receipt; after close buffered values in order, then nil, sends raise; conservation sends == receipts + buffered at the end.",
+        "design_ref": "DESIGN.md section 3 C07",
+        "note": "Interleavings are those the shipped run queue produces for the generated network (the scheduler is the system under test and is not perturbed). Verdict zone: a channel is closed only by its unique sending fiber after its last send; no channel operations in native callbacks.",
+        "technique": "deterministic simulation: generated process networks on the real scheduler, history checker over the recorded event sequence",
+    },
+    "C08": {
+        "category": "exploration",
+        "text": "Same networks as C07. The oracle is the set of outcomes {complete, deadlock} allowed by an ideal process-network model (bounded FIFOs, blocking operations, any schedule) obtained by exhaustive memoised search of the model's own state space; the run must end inside that set, never by step-budget exhaustion (hang/spin), host panic or internal error; launch must pass arguments/receiver/captures (each fiber echoes a tag); a joined program completes with every fiber's effects; nothing runs after main ends; deadlock is reported with a failing status.",
+        "design_ref": "DESIGN.md section 3 C08",
+        "note": "Bounded liveness in VM instructions (20000 + 10000 per operation). When the model allows both outcomes either is accepted. Same verdict zone as C07; close by a fiber that never used the channel is the pinned known finding C08-close-by-non-user.",
+        "technique": "deterministic simulation: generated process networks on the real scheduler vs the outcome set of an exhaustively explored ideal model; bounded liveness",
+    },
+    "C09": {
+        "category": "exploration",
+        "text": "Generated create/drop/re-create histories over string slots through 11 creation routes (incl. another module and a file read through the simulated fs), with collections (nursery/full/double) placed right after `#gc` markers and at seeded points, under eager/seeded address reuse and quarantine. Every ==, !=, ordering, Map has/get/remove/len, List/Tuple has, List index observation must equal the generator's content model; the worker's intern-table monitor checks after every full collection that the table holds exactly the owned strings and that every key is its string's text.",
+        "design_ref": "DESIGN.md section 3 C09",
+        "note": "Content model = python string operations on generator-chosen literals; byte-wise UTF-8 ordering; method/field-name use of strings is not generated (names are identifiers in the source, there is no by-string member access).",
+        "technique": "deterministic simulation: string histories under marker-aligned and seeded GC schedules with address reuse, content-model oracle plus intern-table invariant monitor",
+    },
+    "C13": {
+        "category": "exploration",
+        "text": "Generated class programs (static hierarchies to depth 3, differing field orders, super chains, classes created and dropped at run time with fresh subclasses, fields shadowing methods, shadow/unshadow flips, shared call/get/set/compound-assign/bound-method sites, garbage and class churn between uses) executed twice under the same seeded GC schedule and address policy (70% with address reuse): caches enabled vs every lookup forced to miss. Outputs, exit and host failures must agree; each site's result is also checked against what the program's construction prescribes.",
+        "design_ref": "DESIGN.md section 3 C13",
+        "note": "The forced-miss execution is the specification (hook returns 'miss' before the lookup; fills still happen).",
+        "technique": "deterministic simulation: cache-enabled vs forced-miss execution under seeded GC schedules with eager address reuse",
+    },
+    "C14": {
+        "category": "exploration",
+        "text": "The simulator is built twice (tagged-enum and NaN-boxed values) and both workers execute identical jobs: fixture corpus, generated workloads of all other checks, and generated numeric programs (-0, infinities, NaNs, subnormals, 2^53 neighbours through ==, ordering, map keys, has/index, formatting, parsing, rounding, truthiness), each under the same seeded GC schedule and address policy. stdout, stderr, exit status and host failures must be equal across builds.",
+        "design_ref": "DESIGN.md section 3 C14",
+        "note": "Configuration differential: there is no schedule in the property itself; what simulation adds is identical seeds/schedules in both builds and the NaN-boxed tracing/equality under GC schedules on the poisoning heap. Address-sensitive programs compared on exit class only.",
+        "technique": "deterministic simulation of both build configurations under identical seeds, workloads and schedules; cross-build differential",
+    },
     "C20": {
         "category": "exploration",
         "text": "The simulated heap keeps independent books (size, alignment, liveness of every managed block). At the first quiescent point after every collection and at end of run the worker checks conservation: reported bytes == sum of owned sizes == live arena bytes, owned blocks == live arena blocks, intern table == live strings after a full collection, a back-to-back second full collection frees nothing, next_gc == 2 x live under the shipped threshold policy, every release carries its allocation layout, and the arena is empty after the VM is dropped; churn loops with phase markers check bounded memory (no sustained rise of the live size). Seeded nursery/full interleavings over corpus + generated programs.",
@@ -35,7 +70,7 @@ NOT_APPLICABLE = {
     "C18": "traceback contents are a pure function of program and line layout; no schedule or fault dimension",
 }
 
-IN_PROGRESS = {p: "applicable (DESIGN.md section 3) but its check is not built yet; not claimed at this commit" for p in ["C04", "C07", "C08", "C09", "C10", "C13", "C14", "C17", "C19"]}
+IN_PROGRESS = {p: "applicable (DESIGN.md section 3) but its check is not built yet; not claimed at this commit" for p in ["C04", "C10", "C17", "C19"]}
 
 
 def main():
